@@ -72,6 +72,10 @@ func TestC09ConcurrentAddresses(t *testing.T) {
 			}
 			c.Logf("worker %d: %v", w, scripts[w])
 		}
+		// read-only bystanders: callers that list accounts / read account
+		// properties while addresses are being issued; they receive nothing
+		nReaders := rapid.IntRange(0, 2).Draw(t, "readers")
+		c.Logf("read-only bystanders: %d", nReaders)
 		gateEvery := rapid.IntRange(1, 4).Draw(t, "gateEvery") // gate every k-th commit ...
 		gateBound := time.Duration(rapid.IntRange(3, 15).Draw(t, "gateBoundMs")) * time.Millisecond
 		gated := rapid.IntRange(0, 4).Draw(t, "gated") > 0 // ... in 80% of the cases
@@ -140,15 +144,41 @@ func TestC09ConcurrentAddresses(t *testing.T) {
 				}
 			}(w)
 		}
+		stopReaders := make(chan struct{})
+		var rwg sync.WaitGroup
+		for r := 0; r < nReaders; r++ {
+			rwg.Add(1)
+			go func(r int) {
+				defer rwg.Done()
+				<-startGun
+				for i := 0; ; i++ {
+					select {
+					case <-stopReaders:
+						return
+					default:
+					}
+					p := pairs[(r+i)%len(pairs)]
+					if (r+i)%2 == 0 {
+						_, _ = s.F.W.AccountProperties(p.Scope, p.Account)
+					} else {
+						_, _ = s.F.W.Accounts(p.Scope)
+					}
+					time.Sleep(50 * time.Microsecond)
+				}
+			}(r)
+		}
 		close(startGun)
 		done := make(chan struct{})
-		go func() { wg.Wait(); close(done) }()
+		go func() { wg.Wait(); close(stopReaders); rwg.Wait(); close(done) }()
 		select {
 		case <-done:
 		case <-time.After(120 * time.Second):
 			s.F.Inconclusive("workers did not finish within 120s")
 		}
 		proxy.Gate = nil
+		if nReaders > 0 {
+			c.Class("read-only-bystanders")
+		}
 
 		// ---- oracle: outcome only -----------------------------------------------------------
 		sort.Slice(results, func(a, b int) bool {
